@@ -6,6 +6,8 @@ import (
 	"time"
 
 	"go.uber.org/zap"
+
+	"github.com/anyproto/any-sync/util/simhook"
 )
 
 type entryState int
@@ -77,6 +79,7 @@ func (e *entry) waitLoad(ctx context.Context, id string) (value Object, err erro
 		log.DebugCtx(ctx, "ctx done while waiting on object load", zap.String("id", id))
 		return nil, ctx.Err()
 	case <-e.load:
+		simhook.Yield("ocache.waitLoad.woken")
 		return e.value, e.loadErr
 	}
 }
@@ -92,6 +95,7 @@ func (e *entry) waitClose(ctx context.Context, id string) (res bool, err error) 
 			log.DebugCtx(ctx, "ctx done while waiting on object close", zap.String("id", id))
 			return false, ctx.Err()
 		case <-waitCh:
+			simhook.Yield("ocache.waitClose.woken")
 			return true, nil
 		}
 	case entryStateClosed:
@@ -123,6 +127,7 @@ func (e *entry) setClosing(ctx context.Context, wait bool) (prevState, curState 
 		}
 		select {
 		case <-waitCh:
+			simhook.Yield("ocache.setClosing.woken")
 		case <-ctx.Done():
 			e.mx.Lock()
 			curState = e.state
